@@ -176,6 +176,12 @@ func runDataScenario(t *testing.T, l *evlog, q *oracle, cfg simCfg, r *rng, p da
 				return fmt.Sprintf("scenario=%s n=%d chunk=%d side %d received %d messages that are not a prefix of the %d sent by its peer; seed-derived; first events: %v",
 					cfg.id, cfg.n, cfg.chunk, y, len(s.recvMsgs[y]), len(s.sentMsgs[x]), firstN(l.keep, 60))
 			})
+			if i := s.overwritten(y); true {
+				q.check(i < 0, fmt.Sprintf("%s:returned-message-overwritten-later", pfx), func() string {
+					return fmt.Sprintf("scenario=%s n=%d chunk=%d: the slice side %d obtained from Recv #%d held %x when it was returned and holds %x after later Recv calls (sent lengths %v)",
+						cfg.id, cfg.n, cfg.chunk, y, i, s.recvMsgs[y][i], s.recvRaw[y][i], lens(s.sentMsgs[x]))
+				})
+			}
 			// with a reliable suffix long enough everything arrives (liveness; reported under C06's key)
 			key := fmt.Sprintf("c06:undelivered-after-reliable-suffix:%s", p.prof.name)
 			if p.prop == "c14" {
@@ -185,6 +191,11 @@ func runDataScenario(t *testing.T, l *evlog, q *oracle, cfg simCfg, r *rng, p da
 						key = "c14:one-recv-per-send:empty-payload-with-chunking"
 					}
 				}
+			}
+			if cfg.ping > 0 && (isClosedQuick(s, 0) || isClosedQuick(s, 1)) {
+				// a keepalive timeout during the fault phase closed the connection: a visible failure
+				q.stat("closed_by_keepalive", 1)
+				continue
 			}
 			q.check(len(s.recvMsgs[y]) == len(s.sentMsgs[x]), key, func() string {
 				return fmt.Sprintf("scenario=%s n=%d chunk=%d: side %d received %d of %d messages after 200 s of reliable transport; sent lengths %v",
@@ -249,6 +260,13 @@ func TestGenGbn(t *testing.T) {
 		rr := r.sub(id)
 		if rr.chance(1, 2) {
 			cfg.static = time.Second
+		}
+		if rr.chance(1, 4) {
+			// keepalive on: idle pings consume sequence numbers between the messages
+			// (a ping period below the resend timeout puts several pings in flight at once)
+			cfg.ping = time.Duration(rr.pick([]int{300, 1000, 1500, 3000})) * time.Millisecond
+			cfg.pong = time.Duration(rr.pick([]int{800, 2000, 5000})) * time.Millisecond
+			q.stat("keepalive_scenarios", 1)
 		}
 		runDataScenario(t, l, q, cfg, rr, p)
 		if id <= 3 {
